@@ -10,6 +10,7 @@ from harness import graphgen as gg
 from harness.c01 import compare_graph
 from harness.common import DTYPE_COQ, Failure, HarnessError, cbool, clist, cnat, copt, cstr, cz, dtype_name, exn_name
 from harness.storelib import Interner, c_arr, c_otree, c_tree, dump_tree, enc_arr, tree_printable
+from harness import keystore as kst
 
 PROP = "C02"
 PARALLEL = True
@@ -18,11 +19,15 @@ RULE = ("forward: random well-formed graphs written by write_arrays (zarr 2/3), 
         "serialiser, hand-written metadata JSON) in every conformant variant -- chunk length {1,2,whole}, compressor on/off, missing "
         "absent / all-false when nothing is missing, empty vs absent props group, optional metadata fields omitted, foreign attributes and "
         "members, creation order shuffled, big-endian ids (zarr 2), zarr 2/3 -- read by geff.read_to_memory; non-trivial = at least one "
-        "property; distinct by structural input and variant")
+        "property; distinct by structural input and variant; key level: for every store the raw keys (MemoryStore._store_dict) are read by the Coq "
+        "abstraction function and must equal the API dump and spec-decode to the intended graph; 9 wrong-key layouts x zarr 2/3 as negative controls")
 EXHAUSTIVE_BLOCKS = ["converse: one fixed graph (fixed + masked + var-length property) x all 2*3*2*2*2*2*2 layout variants (incl. var-length sections stored in reverse order)"]
 ASSUMPTIONS = ["zarr decodes chunks/compressors correctly (variants are exercised on the implementation side; the abstract dump is codec-free)",
                "an absent missing array and an all-false one denote the same graph (the equivalence used for C02, see DESIGN 7b)",
-               "dtype equality is by numpy name, not byte order"]
+               "dtype equality is by numpy name, not byte order",
+               "key level: the raw keys of every store (documents parsed, chunk bytes decoded by the harness with numcodecs + numpy.frombuffer, not by "
+               "zarr's codec pipeline) are abstracted inside Coq (KeyStore.v) and compared with the API dump; chunk encoding itself, sharding and the "
+               "transpose codec are outside the model; the geff document is compared up to verdict + skeleton (KeyTie.v)"]
 
 
 def variants_all():
@@ -56,6 +61,24 @@ def generate(rng: random.Random, tier: str):
              "emptyprops": rng.random() < 0.5, "minimal_md": rng.random() < 0.5, "shuffle": rng.randint(0, 1000),
              "bigendian": rng.random() < 0.2, "dlayout": rng.choice([0, 1, 2, 2])}
         yield {"kind": "converse", "variant": v, **g}
+    # key-level negative controls: the fixed graph laid out by the independent writer with ONE wrong key / dtype; the Coq check
+    # demands that the key-level reading of the specification rejects each (Corr/C02.v IKeysNeg)
+    g = fixed_graph()
+    for fmt in (2, 3):
+        for wrong in WRONG_KEYS:
+            v = {"fmt": fmt, "chunk": None, "compress": True, "allfalse": False, "emptyprops": False, "minimal_md": False, "shuffle": 0,
+                 "bigendian": False, "dlayout": 0, "wrong": wrong}
+            yield {"kind": "keysneg", "variant": v, **g}
+
+
+# ---- key-level negative controls: which member / attribute / dtype the independent writer gets wrong ----
+WRONG_KEYS = ["nodes", "edges", "ids", "props", "values", "missing", "data", "geffattr", "idsdtype"]
+WRONG_NAME = {"nodes": "node", "edges": "edge", "ids": "id", "props": "properties", "values": "vals", "missing": "mask", "data": "payload"}
+
+
+def _nm(v, name):
+    """the member name the independent writer uses for the specification's `name` (the specification's, unless v['wrong'] says otherwise)"""
+    return WRONG_NAME[name] if v.get("wrong") == name else name
 
 
 # ---- independent writer (zarr API + numpy only) ----
@@ -117,11 +140,11 @@ def independent_store(c):
         md["axes"] = None
     tasks = []
     for grp, ids, ps in (("nodes", nids, c["nprops"]), ("edges", eids, c["eprops"])):
-        g = root.create_group(grp)
-        tasks.append((g, "ids", ids))
+        g = root.create_group(_nm(v, grp))
+        tasks.append((g, _nm(v, "ids"), ids.astype("int64") if v.get("wrong") == "idsdtype" else ids))
         items = list((ps or {}).items())
         if items or v["emptyprops"]:
-            pg = g.create_group("props")
+            pg = g.create_group(_nm(v, "props"))
             rng.shuffle(items)
             for name, p in items:
                 pnp = gg.prop_to_np(p)
@@ -131,19 +154,19 @@ def independent_store(c):
                     if len(vals) == 0:
                         continue
                     table, data = my_serialize(list(vals), v.get("dlayout", 0), v["shuffle"])
-                    tasks.append((sub, "values", table))
-                    tasks.append((sub, "data", data))
+                    tasks.append((sub, _nm(v, "values"), table))
+                    tasks.append((sub, _nm(v, "data"), data))
                     dt, vl = dtype_name(data.dtype), True
                 else:
                     if vals.dtype.name == "float16":
                         vals = vals.astype("float32")
-                    tasks.append((sub, "values", vals))
+                    tasks.append((sub, _nm(v, "values"), vals))
                     dt, vl = dtype_name(vals.dtype), False
                 miss = pnp["missing"]
                 if miss is not None:
-                    tasks.append((sub, "missing", miss))
+                    tasks.append((sub, _nm(v, "missing"), miss))
                 elif v["allfalse"]:
-                    tasks.append((sub, "missing", np.zeros(len(vals), dtype=bool)))
+                    tasks.append((sub, _nm(v, "missing"), np.zeros(len(vals), dtype=bool)))
                 entry = {"identifier": name, "dtype": dt}
                 if vl or not v["minimal_md"]:
                     entry["varlength"] = vl
@@ -152,7 +175,7 @@ def independent_store(c):
     rng.shuffle(tasks)
     for parent, name, a in tasks:
         put(parent, name, a)
-    root.attrs["geff"] = md
+    root.attrs["geff_metadata" if v.get("wrong") == "geffattr" else "geff"] = md
     if rng.random() < 0.5 or v["shuffle"] == 0:
         root.attrs["ome"] = {"version": "0.5"}
         root.create_group("segmentation")
@@ -185,6 +208,77 @@ def c_sgraph(nids, eids, nprops, eprops, it):
     return f"(mksg {c_arr(enc_arr(nids, it))} {c_arr(enc_arr(eids, it))} {ps(nprops)} {ps(eprops)})"
 
 
+def key_info(raw):
+    """what the key-level oracle looks at: for every node document its kind (+ dtype name and shape of arrays), and the root's attribute keys"""
+    fmt, out = raw["fmt"], {"nodes": {}, "root_attrs": None}
+    for comps, (kind, d) in raw["items"]:
+        if kind != "doc" or not isinstance(d, dict):
+            continue
+        path = "/".join(comps[:-1])
+        if fmt == 2 and comps[-1] == ".zgroup":
+            out["nodes"].setdefault(path, ["group"])
+        elif fmt == 2 and comps[-1] == ".zarray":
+            try:
+                dt = np.dtype(d["dtype"])
+                dn = "str" if dt.kind == "U" else ("bytes" if dt.kind == "S" else ("object" if dt.kind == "O" else dt.name))
+            except Exception:
+                dn = str(d.get("dtype"))
+            out["nodes"][path] = ["array", dn, list(d.get("shape", []))]
+        elif fmt == 2 and comps == [".zattrs"]:
+            out["root_attrs"] = sorted(d)
+        elif fmt == 3 and comps[-1] == "zarr.json":
+            if d.get("node_type") == "array":
+                dt = d.get("data_type")
+                out["nodes"][path] = ["array", dt if isinstance(dt, str) else dt.get("name"), list(d.get("shape", []))]
+            else:
+                out["nodes"][path] = ["group"]
+                if comps == ["zarr.json"]:
+                    out["root_attrs"] = sorted(d.get("attributes") or {})
+    return out
+
+
+def key_oracle(c, o):
+    """docs/specification.md read at the KEY level (zarr-specs for what a group / an array / an attribute is): the root group carries an
+    attribute `geff`; nodes/ids is an array of the ids' dtype and shape (N,), edges/ids of shape (E, 2); every property is a group
+    <grp>/props/<name> with an array `values`, an array `missing` when a value is missing, an array `data` when it is variable-length."""
+    ki = o.get("kinfo")
+    if ki is None:
+        if o.get("keys") == "undecodable":
+            fmt = c["fmt"] if c["kind"] == "forward" else c["variant"]["fmt"]
+            return f"the store's keys cannot be read as a zarr format {fmt} store: {o.get('keys_error')}"
+        return None
+    nodes = ki["nodes"]
+    if nodes.get("") != ["group"]:
+        return "the store's root is not a group"
+    if "geff" not in (ki["root_attrs"] or []):
+        return f"the root group has no attribute 'geff' (attributes: {ki['root_attrs']})"
+    for grp, ids in (("nodes", c["nids"]), ("edges", c["eids"])):
+        if nodes.get(grp) != ["group"]:
+            return f"no group at key {grp}/"
+        a = nodes.get(f"{grp}/ids")
+        if a is None or a[0] != "array":
+            return f"no array at key {grp}/ids"
+        if a[1] != ids["dtype"] or a[2] != list(ids["shape"]):
+            return f"{grp}/ids is {a[1]}{a[2]}, the graph's ids are {ids['dtype']}{list(ids['shape'])}"
+    for grp, ps in (("nodes", c["nprops"]), ("edges", c["eprops"])):
+        for name, p in (ps or {}).items():
+            if "/" in name or name.startswith(".") or name == "zarr.json" or name == "":
+                continue
+            base = f"{grp}/props/{name}"
+            vl = "vlen" in p["values"]
+            if vl and not p["values"]["vlen"]:
+                continue
+            if nodes.get(base) != ["group"]:
+                return f"no group at key {base}/"
+            if (nodes.get(f"{base}/values") or [None])[0] != "array":
+                return f"no array at key {base}/values"
+            if p["missing"] is not None and any(p["missing"]["data"]) and (nodes.get(f"{base}/missing") or [None, None])[:2] != ["array", "bool"]:
+                return f"a value of {name!r} is missing but there is no boolean array at key {base}/missing"
+            if vl and (nodes.get(f"{base}/data") or [None])[0] != "array":
+                return f"variable-length property {name!r} has no array at key {base}/data"
+    return None
+
+
 def run_impl(c):
     from zarr.storage import MemoryStore
 
@@ -209,6 +303,13 @@ def run_impl(c):
         except Exception as e:
             raise HarnessError(f"independent writer failed: {type(e).__name__}: {e}")
     tree = dump_tree(st, it)
+    # the RAW KEYS of the same store (documents parsed, chunks decoded by the harness: harness/keystore.py), for the key-level tie
+    raw = kst.try_raw_dump(st, it, c["fmt"] if c["kind"] == "forward" else c["variant"]["fmt"])
+    obs["keys"] = "undecodable" if raw is None else len(raw["items"])
+    if raw is None:
+        obs["keys_error"] = kst.LAST_ERROR[0]
+    if raw is not None:
+        obs["kinfo"] = key_info(raw)
     try:
         validate_structure(st)
         obs["valid"] = True
@@ -229,8 +330,18 @@ def run_impl(c):
             exp = c_sgraph(np.asarray(nids), np.asarray(eids), intended["nodes"], intended["edges"], it)
             lib = f"(Ok {gg.c_mgraph(back, it)})" if back is not None else f"(Err {obs['read'][1]})"
             obs["coq"] = f"(IStore {c_tree(tree)} (Some {exp}), OStore {cbool(obs['valid'])} {lib})"
+            if raw is not None:
+                kterm, _ = kst.c_kstore(raw)
+                head = "IKeysNeg" if c["kind"] == "keysneg" else "IStoreK"
+                exp_k = exp if c["kind"] == "keysneg" else f"(Some {exp})"
+                obs["coq"] = (f"({head} {c_tree(tree)} {exp_k} {kst.c_fmt(raw['fmt'])} {kterm} {kst.geff_version_term(raw)}, "
+                              f"OStore {cbool(obs['valid'])} {lib})")
+                obs["keys_tied"] = True
+            elif c["kind"] == "keysneg":
+                raise HarnessError("negative control store could not be dumped at the key level")
         except HarnessError:
-            pass
+            if c["kind"] == "keysneg":
+                raise
     return obs
 
 
@@ -247,15 +358,29 @@ def loosen(back, intended):
     return out
 
 
+KEY_STATS = {"stores_tied_at_key_level": 0, "stores_not_decodable_at_key_level": 0, "keys": 0, "negative_controls": 0}
+
+
 def coq_case(c, o):
+    if o.get("keys_tied"):
+        KEY_STATS["stores_tied_at_key_level"] += 1
+        KEY_STATS["keys"] += o["keys"]
+        KEY_STATS["negative_controls"] += c["kind"] == "keysneg"
+    elif o.get("keys") == "undecodable":
+        KEY_STATS["stores_not_decodable_at_key_level"] += 1
     return o.get("coq")
 
 
 def oracle(c, o):
+    if c["kind"] == "keysneg":
+        return None  # not a conformant store: the expectations (raw keys = API view; key-level spec reading rejects) are in Corr/C02.v
     if "write" in o:
         if any("vlen" in p["values"] and not p["values"]["vlen"] for ps in (c["nprops"], c["eprops"]) if ps for p in ps.values()):
             return None
         return Failure(c, slim(o), f"write_arrays raised {o['write'][1]}", {"why": "write-raises"})
+    kw = key_oracle(c, o)
+    if kw is not None:
+        return Failure(c, slim(o), f"key level: {kw}", {"why": "key-layout", "kind": c["kind"]})
     if not o["valid"]:
         return Failure(c, slim(o), f"a {'library-written' if c['kind'] == 'forward' else 'spec-conformant, independently written'} store is "
                        f"rejected by structural validation: {o['valid_exc']}", {"why": "rejects-conformant", "kind": c["kind"]})
@@ -267,14 +392,20 @@ def oracle(c, o):
 
 
 def slim(o):
-    return {k: v for k, v in o.items() if k != "coq"}
+    return {k: v for k, v in o.items() if k not in ("coq", "kinfo")}
 
 
 def nontrivial(c, o):
     return bool(c["nprops"] or c["eprops"])
 
 
+def extra_coverage():
+    return {"key_level": dict(KEY_STATS)}
+
+
 def describe(c, o):
     v = c.get("variant")
+    if c["kind"] == "keysneg":
+        return f"keysneg:v{v['fmt']}:{v['wrong']}"
     tag = "fwd:v%d" % c["fmt"] if v is None else f"conv:v{v['fmt']}:ch={v['chunk']}:z={int(v['compress'])}:af={int(v['allfalse'])}:ep={int(v['emptyprops'])}:min={int(v['minimal_md'])}:be={int(v['bigendian'])}:dl={v.get('dlayout', 0)}"
     return f"{tag}:N={c['nids']['shape'][0]}:{'ok' if o.get('valid') and o.get('read', [''])[0] == 'ok' else 'err'}"
